@@ -30,6 +30,7 @@ void run_prelude(void)
     if (g_prelude == 1) {
         Skinny128TweakedKey_t a; Skinny64TweakedKey_t b; MantisKey_t m;
         Skinny128CTR_t c1; Skinny64CTR_t c2; MantisCTR_t c3;
+        memset(&c1, 0, sizeof(c1)); memset(&c2, 0, sizeof(c2)); memset(&c3, 0, sizeof(c3));   /* the prelude is history, not an oracle: clean objects */
         skinny128_set_tweaked_key(&a, key, 32); skinny128_set_tweak(&a, tw, 16); skinny128_ecb_encrypt(out, buf, &a.ks);
         skinny64_set_tweaked_key(&b, key, 16); skinny64_set_tweak(&b, tw, 8); skinny64_ecb_decrypt(out, buf, &b.ks);
         mantis_set_key(&m, key, 16, 7, MANTIS_DECRYPT); mantis_set_tweak(&m, tw, 8); mantis_ecb_crypt(out, buf, &m);
@@ -40,6 +41,7 @@ void run_prelude(void)
         Skinny128Key_t a; Skinny64Key_t b; MantisKey_t m;
         Skinny128ParallelECB_t p1; Skinny64ParallelECB_t p2; MantisParallelECB_t p3;
         Skinny128CTR_t c1;
+        memset(&p1, 0, sizeof(p1)); memset(&p2, 0, sizeof(p2)); memset(&p3, 0, sizeof(p3)); memset(&c1, 0, sizeof(c1));
         skinny128_set_key(&a, key, 48); skinny128_ecb_decrypt(out, buf, &a);
         skinny64_set_key(&b, key, 24); skinny64_ecb_encrypt(out, buf, &b);
         mantis_set_key(&m, key, 16, 8, MANTIS_ENCRYPT); mantis_ecb_crypt_tweaked(out, buf, tw, &m);
